@@ -9,6 +9,17 @@ EXTENDS XjsParser
 
 IsNilNode(n) == n.k \in {"nil", "tnil"}
 
+\* Trees nested deeper than the JSON reader of TLC allows (255 levels) arrive flattened: a record
+\* [flat |-> <<<<k, op, arity>>, ...>>] in prefix order.  Unflat rebuilds the tree.
+RECURSIVE UnflatAt(_, _), UnflatKids(_, _, _, _)
+UnflatKids(f, i, n, acc) ==
+  IF n = 0 THEN [cs |-> acc, i |-> i]
+  ELSE LET x == UnflatAt(f, i) IN UnflatKids(f, x.i, n - 1, Append(acc, x.n))
+UnflatAt(f, i) ==
+  LET ks == UnflatKids(f, i + 1, f[i][3], <<>>)
+  IN [n |-> Node(f[i][1], f[i][2], ks.cs), i |-> ks.i]
+Unflat(x) == IF "flat" \in DOMAIN x THEN UnflatAt(x.flat, 1).n ELSE x
+
 \* tree constructors
 Id(x) == Node("id", x, <<>>)
 Num(x) == Node("num", x, <<>>)
@@ -123,7 +134,7 @@ WellFormedES(n, CL) ==
        [] n.k = "cpost" -> Lv(n.c[1], CL) >= ES_LHS
        [] n.k = "call" -> /\ Lv(n.c[1], CL) >= ES_LHS
                           /\ \A j \in 2..Len(n.c) : Lv(n.c[j], CL) >= ES_ASSIGN
-       [] n.k = "mem" -> Lv(n.c[1], CL) >= ES_LHS /\ n.c[2].k = "id"
+       [] n.k = "mem" -> Lv(n.c[1], CL) >= ES_LHS /\ n.c[2].k \in {"id", "bool", "null"}
        [] n.k = "idx" -> Lv(n.c[1], CL) >= ES_LHS
        [] OTHER -> TRUE
   /\ \A j \in 1..Len(n.c) : IsNilNode(n.c[j]) \/ WellFormedES(n.c[j], CL)
